@@ -40,7 +40,8 @@ THEOREMS = [NS + t for t in [
 SITES = ['dopen', 'readdir', 'gitignore', 'stat', 'fopen', 'extract']
 TICKER_THEOREM = NS + 'C16_ticker_guarded'
 CACHETABLE_THEOREM = NS + 'C16_cache_guarded'
-COMPARE = ['res', 'done', 'same', 'ret', 'f', 'cls', 'maps']
+OPT_VARIANTS = ['base', 'symlinks', 'abs', 'maxinodes', 'cancel', 'errfs-dir', 'errfs-gitignore', 'errfs-size']     # harness/cmd/c16gen/scanopt.go
+COMPARE = ['res', 'done', 'same', 'got', 'hitsB', 'ret', 'f', 'cls', 'maps']
 
 
 def run_race_binary(binary, args, timeout=1800):
@@ -248,7 +249,7 @@ def cache_oracle(case, fi, stats=None):
 
 def judge_free(ctx, rows, oracle, classify, nontrivial, what):
     """free runs have no schedule to replay on the model: the implementation's result is judged by the specification only"""
-    rows = [r for r in rows if r[0].startswith(('pfree ', 'pstrat ', 'cnc '))]
+    rows = [r for r in rows if r[0].startswith(('pfree ', 'pstrat ', 'cnc ', 'dsc '))]
     if not rows:
         return
     model = ctx.run_driver('drv_c16', [c for c, _ in rows])
@@ -257,6 +258,9 @@ def judge_free(ctx, rows, oracle, classify, nontrivial, what):
         ctx.add_case(case, nontrivial(case, fi, fm), classify(case, fi, fm))
         if case.startswith('cnc ') and fm.get('same') == '1':
             if fi.get('same') != fm.get('same') and fi.get('_') != 'panic':
+                ctx.mismatches.append(case)
+        elif case.startswith('dsc ') and 'hitsB' in fm:
+            if fi.get('hitsB') != fm.get('hitsB') and fi.get('_') != 'panic':
                 ctx.mismatches.append(case)
         elif 'spec' not in fm:
             ctx.mismatches.append(case)
@@ -324,7 +328,13 @@ def run(ctx):
                 '(one process each) of 20..27 files in 3..5 directories over an in-memory FS that is slow (~3 s in total) at ONE site kind per scan — directory Open, every ReadDir(1), '
                 '.gitignore Open, Stat, file Open, Extract — as whole-tree scans (ticker goroutine) and requested-path scans (control), plus the legacy every-Open-slow scan over walkcase.MemFS, '
                 'plus multi-root scans (2..3 roots, the last Extract of every non-last root outlasts the status interval, a user-installed log.Logger blocks 0.7..1.2 s per status line, so the '
-                'previous root\'s un-joined ticker is still inside printStatus when RunFS starts on the next root); '
+                'previous root\'s un-joined ticker is still inside printStatus when RunFS starts on the next root), plus option scans (scanopt.go: 8 variants — skip lists/regex/glob, gitignore, '
+                'MaxFileSize, symlinks, unreadable directories/files/.gitignore, failing extractor, StoreAbsolutePath, MaxInodes, cancellation, ErrorOnFSErrors at three sites — each run fast '
+                'and slow (ticker firing), the two outcomes must be equal); '
+                'real strategies also under options (upgrade levels, MaxDepth, registry errors for Versions/Requirements, matcher errors, descending version lists, npm alias, Maven classifier); '
+                'cnc: every method of CombinedNativeClient incl. AddRegistries and the ecosystems whose client cannot be constructed (unknown system, unparsable Maven URL, unreadable .npmrc); '
+                'dsc: the PyPI/npm/Maven datasource clients shared by 2..4 goroutines while their caches are saved (GobEncode/GetMap) and reloaded (GobDecode/SetMap): answers = sequential run, '
+                'snapshots answer alike, no request after a reload; '
                 'when the access table names an unguarded access, extra scans at the site kinds next to it. non-trivial = patches case with >=3 deliveries, cache case with a waiter or a failed fetch; distinct = distinct case lines')
     # 1. regenerate the access table from what the source says NOW
     targs = ['-out', lib.LEAN + '/Scalibr/Gen/Ticker.lean']
@@ -402,7 +412,7 @@ def run(ctx):
         t = case.split(' ')
         if t[0] == 'patches':
             return t[5].count('/') >= 2
-        if t[0] in ('pstrat', 'cnc'):
+        if t[0] in ('pstrat', 'cnc', 'dsc'):
             return True
         if t[0] == 'pfree':
             return t[4].count('|') >= 2
@@ -444,8 +454,28 @@ def run(ctx):
                         % (t[3].count(';') + 1, 'staggered' if t[2] == 't' else 'simultaneous', {'n': 'npm', 'm': 'Maven', 'p': 'PyPI'}.get(t[1], t[1]), unh(fi.get('conc')), unh(fi.get('seq'))))
             if fi.get('same') != '1':
                 return 'the goroutines ended up with different %s registry clients (the lazy initialisation ran more than once)' % t[1]
+            if fi.get('got') != fm.get('got'):
+                return ('the goroutines %s a %s registry client; the once-cell model (construction %s) says they %s'
+                        % ('have' if fi.get('got') == '1' else 'do not have', t[1], 'fails' if fm.get('got') == '0' else 'succeeds', 'do' if fm.get('got') == '1' else 'do not'))
             if int(fi.get('hits', '0')) > 1:
                 return 'one registry URL was fetched %s times by one CombinedNativeClient (request cache not shared / not single flight)' % fi.get('hits')
+            return None
+        if t[0] == 'dsc':
+            who = 'the %s datasource client shared by %d goroutines (%s)' % ({'n': 'npm', 'm': 'Maven', 'p': 'PyPI'}.get(t[1], t[1]), t[3].count(';') + 1, case)
+            if fi.get('_') == 'panic' or 'final' in fi:
+                return '%s: %s' % (who, 'panicked' if fi.get('_') == 'panic' else 'its cache cannot be saved/loaded: ' + fi['final'])
+            unh = lambda h: bytes.fromhex(h).decode('utf-8', 'replace') if h not in (None, '-', '') else ''
+            if fi.get('conc') != fi.get('seq'):
+                return '%s answered %r while its cache was being saved; the same lookups on one goroutine return %r' % (who, unh(fi.get('conc')), unh(fi.get('seq')))
+            if fi.get('dec') != fi.get('seq'):
+                return '%s, cache loaded from the saved encoding (and reloaded while in use), answered %r; the fetching client answered %r' % (who, unh(fi.get('dec')), unh(fi.get('seq')))
+            for sn in unh(fi.get('snaps')).split('|') if fi.get('snaps') not in (None, '-', '') else []:
+                if sn != unh(fi.get('want')):
+                    return '%s: a client loaded from a snapshot saved during the concurrent run answers %r, the fetching client %r' % (who, sn, unh(fi.get('want')))
+            if int(fi.get('hits', '0')) > 1:
+                return '%s fetched one URL %s times (request cache not single flight while being saved)' % (who, fi.get('hits'))
+            if fi.get('hitsB') != '0':
+                return '%s made %s registry requests although every answer is in the cache it loaded (a reload dropped entries / the encoding lost them)' % (who, fi.get('hitsB'))
             return None
         return cache_oracle(case, fi, lin_stats)
 
@@ -460,6 +490,8 @@ def run(ctx):
             u['n'] += 1
             depth = max(k.split('=')[0].count('.') for k in t[4].split('|')) if t[4] != '-' else 0
             return 'patches mode=%s order=%s ids<=%d' % (t[1], fm.get('order'), depth + 1)
+        if t[0] == 'dsc':
+            return 'datasource-client save/load %s goroutines=%d' % ({'n': 'npm', 'm': 'maven', 'p': 'pypi'}.get(t[1], t[1]), t[3].count(';') + 1)
         if t[0] == 'cnc':
             return 'combined-client %s goroutines=%d %s' % ({'n': 'npm', 'm': 'maven', 'p': 'pypi'}.get(t[1], t[1]), t[3].count(';') + 1, 'staggered' if t[2] == 't' else 'simultaneous')
         if t[0] == 'pstrat':
@@ -480,7 +512,7 @@ def run(ctx):
             return 'free mode=%s ids<=%d %s%s' % (t[1], depth + 1, t[5].split('r')[0], ' stateful-client' if fi.get('client') == 'stateful' else '')
         return 'cache callers=%d keys=%d setmap=%s' % (t[1].count(',') + 1, len(set(t[1].split(','))), '1' if ',S' in t[2] else '0')
 
-    if not ctx.replay or any(l.startswith(('patches ', 'cache ', 'pfree ', 'pstrat ', 'cnc ')) for l in open(ctx.replay)):
+    if not ctx.replay or any(l.startswith(('patches ', 'cache ', 'pfree ', 'pstrat ', 'cnc ', 'dsc ')) for l in open(ctx.replay)):
         lib.standard_stream(ctx, gen='c16gen', driver='drv_c16', gen_args=['-seed', str(ctx.seed), '-n', str(n), '-tier', ctx.tier],
                             compare_keys=COMPARE, nontrivial=nontrivial, oracle=oracle, classify=classify, sample_every=1499)
     if not ctx.replay:
@@ -541,13 +573,13 @@ def run(ctx):
         runs = [['-mode', 'cnc', '-seed', str(ctx.seed), '-tier', ctx.tier], ['-mode', 'free', '-seed', str(ctx.seed), '-tier', ctx.tier],
                 ['-mode', 'strat', '-seed', str(ctx.seed), '-tier', ctx.tier]]
         if ctx.replay:
-            runs = [['-replay', ctx.replay]] if any(l.startswith(('pfree ', 'pstrat ', 'cnc ')) for l in open(ctx.replay)) else []
+            runs = [['-replay', ctx.replay]] if any(l.startswith(('pfree ', 'pstrat ', 'cnc ', 'dsc ')) for l in open(ctx.replay)) else []
         for free_args in runs:
             what = 'replayed case' if '-replay' in free_args else 'real strategies' if 'strat' in free_args else 'CombinedNativeClient shared by several goroutines: lazily created registry clients and their request caches' if 'cnc' in free_args else 'free run'
             e = lib.goenv()
             e['GORACE'] = 'halt_on_error=1 exitcode=66'
             p = subprocess.run([race_bin] + free_args, stdout=subprocess.PIPE, stderr=subprocess.PIPE, text=True, timeout=1800, env=e, errors='replace')
-            frows = [tuple(l.split('\t', 1)) for l in p.stdout.split('\n') if '\t' in l and l.startswith(('pfree ', 'pstrat ', 'cnc '))]
+            frows = [tuple(l.split('\t', 1)) for l in p.stdout.split('\n') if '\t' in l and l.startswith(('pfree ', 'pstrat ', 'cnc ', 'dsc '))]
             races['free_runs_under_race'] = races.get('free_runs_under_race', 0) + len(frows)
             rep = race_report(p.stderr)
             if rep or p.returncode == 66:
@@ -630,6 +662,8 @@ def run(ctx):
             # always: scans over several roots (a non-last root's walk outlasts the status interval inside its LAST Extract, a slow logger keeps
             # that root's ticker inside printStatus while the next root's RunFS starts)
             scans += [(ctx.seed * 100 + r, 'multiroot', 'tree') for r in range({'quick': 1, 'thorough': 3}[ctx.tier])]
+            # always: the engine's options and error paths with the ticker firing, outcome compared with the same scan run fast (scanopt.go)
+            scans += [(ctx.seed * 100 + r, 'opt-' + v, 'tree') for r in range({'quick': 1, 'thorough': 2}[ctx.tier]) for v in OPT_VARIANTS]
             for site in [x for x in order + ['multiroot'] if x in adjacent]:      # the table names an unguarded access: more scans next to it
                 scans += [(ctx.seed * 100 + 50 + r, site, 'tree') for r in range(2)]
         e = lib.goenv()
@@ -667,6 +701,11 @@ def run(ctx):
                         msg += ' | access table: ' + conflicts[0][9:]
                     if sum(1 for v in ctx.violations if v[2] and 'filesystem scan' in v[0]) < 2:
                         ctx.violation(msg, [case] + ['# ' + l for l in err.split('\n')[:40]], name='race-scan-%d-%s-%s' % (s_, site, sm))
+                elif p.returncode == 0 and site.startswith('opt-') and 'same=0' in out:
+                    unh = lambda h: bytes.fromhex(h).decode('utf-8', 'replace')
+                    mo, mf = re.search(r'outcome=([0-9a-f]*)', out), re.search(r'fast=([0-9a-f]*)', out)
+                    ctx.violation('the outcome of a filesystem scan (%s) depends on whether the status ticker ran: run fast it is %r, lasting longer than the status interval %r'
+                                  % (site, unh(mf.group(1))[:600] if mf else '?', unh(mo.group(1))[:600] if mo else '?'), [case], name='scan-%d-%s-%s' % (s_, site, sm))
                 elif p.returncode != 0 or 'complete=1' not in out:
                     ctx.violation('race scan %s did not complete: rc=%s %s %s' % (case, p.returncode, out.strip(), err[-400:]), [case], found_input=False,
                                   name='scan-%d-%s-%s' % (s_, site, sm))
